@@ -594,7 +594,12 @@ impl TransportVisitor for VB {
                 call!("flush", b.flush());
                 let mut id = [0u8; 20];
                 lend(&id);
-                call!("device_id", b.device_id(&mut id));
+                if let Some(Ok(n)) = call!("device_id", b.device_id(&mut id)) {
+                    // The documented use of the result is `&id[0..n]`.
+                    if n > id.len() {
+                        viol("length-exceeds-buffer", format!("device_id returned a length of {} for the caller's {}-byte buffer (the caller is told to use id[0..length])", n, id.len()));
+                    }
+                }
                 let mut req = virtio_drivers::device::blk::BlkReq::default();
                 let mut resp = virtio_drivers::device::blk::BlkResp::default();
                 let tok = call!("read_blocks_nb", unsafe { b.read_blocks_nb(2, &mut req, &mut buf, &mut resp) });
